@@ -25,7 +25,7 @@ pub fn props() -> Vec<Prop> {
             id: "C10",
             run: c10,
             tools: None,
-            rule: "for every (link position, target position) pair over 2 names up to depth 4 (quick) / 6 (thorough), target kind in {file, dir, absent, link-to-file, link-to-dir}, and both spellings of the target (absolute, relative to the link's directory): a fresh filesystem is prepared, symlink(link, target) is called and the laws of the statement are checked through the API (readlink_abs == abs(target); clean(dir(link)/readlink) == readlink_abs and readlink relative; is_symlink && !is_file && !is_dir; is_symlink_dir/file == kind of the target at creation; entry()/follow(true) swaps path and alt exactly once; remove / chmod / chown without follow act on the link and leave the target's snapshot unchanged; readlink/readlink_abs fail on every non-link). Both backends; on Stdfs additionally std::fs::read_link resolves to the same target. distinct_nontrivial = distinct (backend, depth(link), depth(target), relation, target kind, spelling) tuples. Later additions: clone()/upcast() of a followed entry; a second symlink() for the occupied location under six spellings of the link path (refused and unchanged, or Ok and the law holds for the new target); chown_b / chmod_b on the link with every recursion setting; on Stdfs the target-recording clauses for every target kind; chown of the link back to exactly the owner its target has.",
+            rule: "for every (link position, target position) pair over 2 names up to depth 4 (quick) / 6 (thorough), target kind in {file, dir, absent, link-to-file, link-to-dir}, and both spellings of the target (absolute, relative to the link's directory): a fresh filesystem is prepared, symlink(link, target) is called and the laws of the statement are checked through the API (readlink_abs == abs(target); clean(dir(link)/readlink) == readlink_abs and readlink relative; is_symlink && !is_file && !is_dir; is_symlink_dir/file == kind of the target at creation; entry()/follow(true) swaps path and alt exactly once; remove / chmod / chown without follow act on the link and leave the target's snapshot unchanged; readlink/readlink_abs fail on every non-link). Both backends; on Stdfs additionally std::fs::read_link resolves to the same target. distinct_nontrivial = distinct (backend, depth(link), depth(target), relation, target kind, spelling) tuples. Later additions: clone()/upcast() of a followed entry; a second symlink() for the occupied location under six spellings of the link path (refused and unchanged, or Ok and the law holds for the new target); chown_b / chmod_b on the link with every recursion setting; on Stdfs the target-recording clauses for every target kind; chown of the link back to exactly the owner its target has; on Stdfs targets outside the sandbox (other top-level trees, the root, missing).",
             assumptions: &["on Stdfs, for targets that are missing or links themselves, the target-recording clauses (readlink_abs, the readlink navigation law, entry path/alt) are judged; the kind flags and the acts-on-the-link clauses only inside C02's domain", "readlink may be absolute only when the target is the link's own directory (C16)", "the Stdfs half runs as root (chown must be able to succeed)"],
             shards_quick: 8,
             shards_thorough: 16,
@@ -866,6 +866,57 @@ fn c10(ctx: &Ctx, rep: &mut Report) {
                         sampled += 1;
                         rep.sample(J::obj(vec![("link", J::s(l)), ("target", J::s(t)), ("target_kind", J::s(tkind)), ("spelling", J::s(spelling)), ("readlink", J::s(ref_relative(t, &parent_of(l).unwrap())))]));
                     }
+                }
+            }
+        }
+    }
+    // real backend only: targets OUTSIDE the sandbox, in other top-level trees and the root itself (existing or not).
+    // Link and target then share nothing but "/" - the relative text is a run of ".." all the way up - and the same
+    // laws hold: readlink_abs is the target, readlink is relative and navigates to it from the link's directory, the
+    // text on disk is what readlink returns. Nothing outside the sandbox is written.
+    if ctx.shard == 0 {
+        wipe(&root);
+        let v = Stdfs::new();
+        for (di, ldir) in ["", "/o1", "/o1/o2/o3"].iter().enumerate() {
+            let dir = format!("{}{}", root, ldir);
+            let _ = v.mkdir_p(&dir);
+            for (ti, target) in ["/", "/etc", "/usr/bin/env", "/etc/hostname", "/nonexistent-top/x", "/proc/self"].iter().enumerate() {
+                rep.eval();
+                let link = format!("{}/out{}_{}", dir, di, ti);
+                rep.key_str(&format!("stdfs|outside-target|dl{}|{}", di, target));
+                set_case("symlaw:stdfs:returns→stalls", &format!("link={} target={}", link, target));
+                let mut bad = |what: &str, detail: String| {
+                    rep.violation(&format!("symlaw:stdfs(outside-the-sandbox,absolute):{}", what), J::obj(vec![("link", J::s(link.replace(&root, "<R>"))), ("target", J::s(*target)), ("detail", J::s(detail))]));
+                };
+                if let Err(e) = v.symlink(&link, target) {
+                    bad("symlink→Err", e.to_string());
+                    continue;
+                }
+                match v.readlink_abs(&link) {
+                    Ok(a) if a == Path::new(target) => {},
+                    other => bad("readlink_abs==abs(target)→differs", format!("{:?}", other.map_err(|e| e.to_string()))),
+                }
+                match v.readlink(&link) {
+                    Ok(r) => {
+                        let rs = r.to_string_lossy().to_string();
+                        if rs.starts_with('/') {
+                            bad("readlink-is-relative→absolute", rs.clone());
+                        }
+                        if crate::refs::go_clean(&format!("{}/{}", dir, rs)) != *target {
+                            bad("clean(dir(link)/readlink)==readlink_abs→differs", rs.clone());
+                        }
+                        match std::fs::read_link(&link) {
+                            Ok(t) if t == r => {},
+                            other => bad("text-on-disk==readlink→differs", format!("{:?} vs {:?}", other, r)),
+                        }
+                    },
+                    Err(e) => bad("readlink→Err", e.to_string()),
+                }
+                if !v.is_symlink(&link) || v.is_file(&link) || v.is_dir(&link) {
+                    bad("link-exclusion→violated", String::new());
+                }
+                if v.remove(&link).is_err() || std::fs::symlink_metadata(&link).is_ok() {
+                    bad("remove(link)-removes-the-link→still-there", String::new());
                 }
             }
         }
